@@ -101,6 +101,13 @@ Section Invokes.
            | x :: r => invokes cur x \/ (ok (val cur x) /\ each r)
            end) args
         \/ (exists vs, eval_args E cur args = Ok vs /\ T qual name vs cur = true)
+    | ETuple items =>
+        (* ValueTupleExpr: members left to right (a member the model leaves out stops the evaluation before any hook) *)
+        (fix each (l : list (expr Q)) : Prop :=
+           match l with
+           | [] => False
+           | x :: r => slot_form x = false /\ (invokes cur x \/ (ok (in_item cur x) /\ each r))
+           end) items
     end.
 
   (* WHERE / HAVING *)
@@ -156,7 +163,7 @@ Section Invokes.
       pose proof (er_data ap Q E E' HE) as Hd. pose proof (er_hard ap Q E E' HE) as Hh.
       induction e as [p|f|str|b| |ea eb IHa IHb|ea eb IHa IHb|ea IHa|op ea eb IHa IHb|n ea eb IHa IHb
                      |n ea items IHa IHitems|n ea q IHa|n ea lo hi IHa IHlo IHhi|op ea IHa|op ea eb IHa IHb
-                     |op ea IHa|whens els IHw IHe|q|q|f arg|qual name args IHargs] using c19_expr_ind;
+                     |op ea IHa|whens els IHw IHe|q|q|f arg|qual name args IHargs|titems IHtitems] using c19_expr_ind;
         intros cur Hi; cbn [invokes] in Hi; try contradiction; cbn [eval]; try rewrite Hd.
       - (* EAnd *)
         destruct Hi as [Hi|[Hok Hi]]; [repeat apply (fails_bind ap); apply IHa, Hi|].
@@ -228,6 +235,14 @@ Section Invokes.
           destruct (Hargs args vs Hvs) as [Heq|Hf].
           * rewrite Heq. cbn [bind]. apply HT, HTr.
           * repeat apply (fails_bind ap); apply Hf.
+      - (* ETuple *)
+        apply (fails_bind ap).
+        induction IHtitems as [|y rest Hy _ IHr]; [contradiction|].
+        destruct Hi as [Hsf Hi]. rewrite Hsf.
+        destruct Hi as [Hi|[Hok Hi]]; [repeat apply (fails_bind ap); apply Hy, Hi|].
+        destruct Hok as [it Hok]. unfold in_item in Hok. apply bind_ok_inv in Hok.
+        destruct Hok as [y0 [Hy0 Hit]]. pre Hy0. rewrite Hit. cbn [bind].
+        repeat apply (fails_bind ap); apply IHr, Hi.
     Qed.
 
     Lemma eval_cond_surfaces : forall cur c, cond_invokes cur c -> fails ap (eval_cond E' cur c).
